@@ -191,6 +191,7 @@ theorem knownItems_sum_le (B : Nat) (fields : List (String × Ty)) (kvs : List (
     simp only [List.filterMap_cons, vsizeK, Nat.mul_add]
     cases k with
     | int i => simp only; omega
+    | other n => simp only; omega
     | str s =>
       simp only
       cases fields.lookup s with
@@ -203,6 +204,7 @@ theorem knownItems_field (fields : List (String × Ty)) (kvs : List (Key × Val)
   obtain ⟨kv, _, hkv⟩ := List.mem_filterMap.1 h'
   cases hk : kv.1 with
   | int i => simp [hk] at hkv
+  | other n => simp [hk] at hkv
   | str s =>
     simp only [hk] at hkv
     cases hl : fields.lookup s with
